@@ -48,7 +48,8 @@ def generate(rng, tier) -> dict:
         for _ in range(rng.randint(1, 6)):
             natural = {1: "uint8", 2: "uint8", 4: "uint8", 8: "uint8", 16: "uint16", 32: "float32"}[d]
             dt = natural if rng.random() < 0.5 else rng.choice(DT)
-            sc["ops"].append({"op": "cwrite", "n": rng.randint(1, mx // 3), "dtype": dt, "vals": "rep" if rng.random() < 0.85 else "unrep"})
+            sc["ops"].append({"op": "cwrite", "n": rng.randint(1, mx // 3), "dtype": dt, "vals": "rep" if rng.random() < 0.85 else "unrep",
+                              "layout": rng.choice(["1d", "1d", "1d", "1d-strided", "2d-C", "2d-F"])})
         sc["reads"] = [[rng.random(), rng.random()] for _ in range(2)]
         # an EARLIER product written from the same header at another depth (a session that writes several files)
         sc["pre_depth"] = rng.choice([None, None, 1, 2, 4, 8, 16, 32])
@@ -193,6 +194,17 @@ def exec_fil(sc, ctx, sim, mk) -> None:
     for i, op in enumerate(sc["ops"]):
         arr, exp = chunk_values(sc, op, t0)
         t0 += op["n"]
+        lay = op.get("layout", "1d")
+        if lay == "1d-strided":  # a non-contiguous 1-D view holding the same values
+            wide = np.zeros(arr.size * 2, dtype=arr.dtype)
+            wide[::2] = arr
+            arr = wide[::2]
+        elif lay == "2d-C":  # (nsamps, nchans), row-major
+            arr = arr.reshape(op["n"], nch)
+        elif lay == "2d-F":  # the same logical (nsamps, nchans) array as a transposed view of (nchans, nsamps)
+            arr = np.ascontiguousarray(arr.reshape(op["n"], nch).T).T
+        if lay != "1d":
+            ctx.probe("layout:" + lay)
         if arr.dtype != fdt:
             ctx.probe("dtype!=file-dtype")
         if exp is None:
